@@ -270,6 +270,11 @@ func (e *Exec) intrinsic(fn *ssa.Function, name string, args []Value) (Value, bo
 		for _, sg := range e.cmd.out {
 			n = e.st.Bin(OpAdd, n, sg.n)
 		}
+		if e.cmd.noTrunc {
+			// the output file may have existed with cmd.oldlen bytes
+			old := e.st.Var("cmd.oldlen", 64)
+			n = e.st.Ite(e.st.And(e.st.Cmp(OpUlt, n, old), e.st.Cmp(OpUle, old, e.c64(1<<20))), old, n)
+		}
 		return n, true
 	case "vOutFlushed":
 		return e.st.Bool(e.cmd.flushed && e.cmd.closed), true
@@ -505,6 +510,22 @@ func (e *Exec) stub(fn *ssa.Function, full string, args []Value) (Value, bool) {
 		}
 		e.cmd.readName = args[0].(*StringV)
 		return TupleV{e.cmd.file, &IfaceV{}}, true
+	case "os.OpenFile":
+		// write-only create: with O_TRUNC it is os.Create; without, whatever an
+		// existing longer file held beyond the written bytes survives
+		fl, ok := args[1].(*Term)
+		if !ok || fl.op != OpConst {
+			e.unsupported("os.OpenFile with non-constant flags")
+		}
+		const oCreate, oTrunc, oAppend, oRdwr = 0x40, 0x200, 0x400, 0x2
+		if fl.val&oCreate == 0 || fl.val&oAppend != 0 || fl.val&oRdwr != 0 || fl.val&0x1 == 0 {
+			e.unsupported(fmt.Sprintf("os.OpenFile flags %#x", fl.val))
+		}
+		if fl.val&oTrunc == 0 {
+			e.cmd.noTrunc = true
+		}
+		e.objSeq++
+		return TupleV{&PtrV{obj: e.newObj(&OpaqueV{kind: "file", id: e.objSeq}, "file")}, &IfaceV{}}, true
 	case "os.Create":
 		e.objSeq++
 		return TupleV{&PtrV{obj: e.newObj(&OpaqueV{kind: "file", id: e.objSeq}, "file")}, &IfaceV{}}, true
